@@ -116,8 +116,26 @@ def st_scenario(max_readers=2, max_writers=3):
     })
 
 
+def st_targeted():
+    """A request that names exactly the objects a concurrent transaction removes, creates or changes."""
+    inv = MP.inventory(FIXTURE)
+    dels = inv.deletable[:8]
+    pool = list(range(len(inv.pool)))
+    ctx = inv.context_states[:3]
+    req = st.sampled_from(REQUESTS)
+    deleted = st.tuples(req, st.sampled_from(dels), MP.IFACE, st.lists(st.sampled_from(dels + ['vf_unknown']), max_size=2)).map(
+        lambda t: {'readers': [[[t[0], [t[1], *t[3]]]]], 'writers': [[['descr_delete', t[1], t[2]]]]})
+    created = st.tuples(req, st.sampled_from(pool), MP.IFACE).map(
+        lambda t: {'readers': [[[t[0], [inv.pool[t[1]][0]]]]], 'writers': [[['descr_create', t[1], t[2]]]]})
+    parts = [deleted, deleted, created]
+    if ctx:
+        parts.append(st.tuples(req, st.sampled_from(ctx)).map(
+            lambda t: {'readers': [[[t[0], [t[1]]]]], 'writers': [[['ctx_delete', t[1]]]]}))
+    return st.tuples(st.one_of(parts), st.booleans()).map(lambda t: dict(t[0], setup=[], fine=t[1]))
+
+
 def st_case():
-    return st.tuples(st_scenario(), st.lists(st.integers(0, 5), max_size=40)).map(
+    return st.tuples(st.one_of(st_scenario(), st_scenario(), st_targeted()), st.lists(st.integers(0, 5), max_size=40)).map(
         lambda t: dict(t[0], choices=t[1]))
 
 
